@@ -75,6 +75,8 @@ func runHistory(sp spec, tmp string) (res *result, err error) {
 		h.witnessNilLeader()
 	case "w-unsigned-key":
 		h.witnessUnsignedKey()
+	case "w-member-epoch":
+		h.witnessMemberEpoch()
 	case "gen":
 		for k := 0; k < 2+h.rng.Intn(2) && !h.cut; k++ {
 			h.attempt()
@@ -83,6 +85,9 @@ func runHistory(sp spec, tmp string) (res *result, err error) {
 		all := h.allNodes()
 		m := h.subset(all, 3+h.rng.Intn(2))
 		h.fabricate(m, minT(len(m))+h.rng.Intn(len(m)-minT(len(m))+1), uint32(1+h.rng.Intn(4)))
+		if h.rng.Intn(3) == 0 {
+			h.epochSweep(h.pick(m))
+		}
 		for k := 0; k < 2+h.rng.Intn(2) && !h.cut; k++ {
 			h.attempt()
 		}
@@ -183,6 +188,27 @@ func (h *hist) witnessUnsignedKey() {
 	h.packet(1, q, "proposal:mutated:t-remainer-key", "leader")
 }
 
+// a MEMBER (finished record at epoch 1) is listed as leaving AND joining by its leader, joins with
+// the group file, is moved to Left by the execute (keeping the group file as FinalGroup), accepts a
+// proposal ten epochs ahead (Left accepts epoch jumps), is aborted, falls back to its finished
+// record and accepts epoch 2: current epoch 11 -> 2.
+func (h *hist) witnessMemberEpoch() {
+	h.fabricate([]int{0, 1, 2}, 2, 1)
+	leader := h.w.ids[0]
+	mk := func(epoch uint32, joining []int) *pdkg.GossipPacket {
+		t := &pdkg.ProposalTerms{BeaconID: beaconID, Threshold: 2, Epoch: epoch, Timeout: h.farTimeout(),
+			Leader: proto.Clone(leader.part).(*pdkg.Participant), SchemeID: h.w.sch.Name, BeaconPeriodSeconds: 30, CatchupPeriodSeconds: 5,
+			GenesisTime: timestamppb.New(h.gen), GenesisSeed: h.seed, Remaining: h.parts([]int{0, 1}), Leaving: h.parts([]int{2}), Joining: h.parts(joining)}
+		return h.proposalPacket(t, leader, leader.part.Address)
+	}
+	h.packet(2, mk(2, []int{2}), "proposal epoch 2 (node both leaving and joining)", "leader")
+	h.command(2, h.joinCmd("group"), "cmd-join:group", "self", false)
+	h.packet(2, h.forged(2, "execute", leader, leader), "execute: leaver moves to Left, FinalGroup = group file", "leader")
+	h.packet(2, mk(11, nil), "proposal epoch 11 (Left accepts epoch jumps)", "leader")
+	h.packet(2, h.forged(2, "abort", leader, leader), "abort by the leader", "leader")
+	h.packet(2, mk(2, nil), "proposal epoch 2", "leader")
+}
+
 // a proposal without a leader: terms.Leader.Address is a nil dereference in DBState.Proposed.
 func (h *hist) witnessNilLeader() {
 	x := h.attacker()
@@ -235,10 +261,32 @@ func (h *hist) sleepHistory() {
 	h.attempt()
 }
 
+// epochSweep sends node i otherwise well-formed, correctly signed reshare proposals of the current
+// group at the epochs around its own: e-1, e, e+2 and 0 must be refused (e+1 is what the honest
+// flow sends afterwards).
+func (h *hist) epochSweep(i int) {
+	if len(h.group) == 0 || h.cut {
+		return
+	}
+	base := effective(mustSnapshot(h.w.nodes[i]))
+	leader := h.w.ids[h.group[0]]
+	for _, e := range []int64{int64(base.Epoch) - 1, int64(base.Epoch), int64(base.Epoch) + 2, 0} {
+		if e < 0 {
+			continue
+		}
+		t := &pdkg.ProposalTerms{BeaconID: beaconID, Threshold: h.thr, Epoch: uint32(e), Timeout: h.farTimeout(),
+			Leader: proto.Clone(leader.part).(*pdkg.Participant), SchemeID: h.w.sch.Name, BeaconPeriodSeconds: 30, CatchupPeriodSeconds: 5,
+			GenesisTime: timestamppb.New(h.gen), GenesisSeed: h.seed, Remaining: h.parts(h.group)}
+		h.packet(i, h.proposalPacket(t, leader, leader.part.Address), fmt.Sprintf("proposal:epoch%+d", e-int64(base.Epoch)), h.role(i, h.group[0]))
+	}
+}
+
 // sweepHistory: an honest reshare flow in which every packet reaches a member and a joiner first in
 // all its single-field alterations (signature kept), then genuinely.
 func (h *hist) sweepHistory() {
 	h.fabricate([]int{0, 1, 2, 3}, 3, uint32(1+h.rng.Intn(3)))
+	h.epochSweep(3)
+	h.epochSweep(4)
 	s := reshareSpec{leader: 0, remaining: []int{0, 1, 2, 3}, leaving: nil, joining: []int{4}, thr: 3}
 	_, prop := h.command(0, h.reshareCmd(s, ""), "cmd-reshare", "leader", false)
 	h.sweep(1, prop, "proposal", 0)
@@ -246,6 +294,16 @@ func (h *hist) sweepHistory() {
 	h.packet(2, prop, "proposal", "leader")
 	_, acc := h.command(2, simpleCmd("accept"), "cmd-accept", "member", false)
 	h.sweep(1, acc, "accept", 2)
+	// a remaining member (right key) vouching for another member's acceptance / rejection
+	for _, kind := range []string{"accept", "reject"} {
+		var pk *pdkg.GossipPacket
+		if kind == "accept" {
+			pk = &pdkg.GossipPacket{Packet: &pdkg.GossipPacket_Accept{Accept: &pdkg.AcceptProposal{Acceptor: h.parts([]int{0})[0]}}}
+		} else {
+			pk = &pdkg.GossipPacket{Packet: &pdkg.GossipPacket_Reject{Reject: &pdkg.RejectProposal{Rejector: h.parts([]int{0})[0]}}}
+		}
+		h.packet(1, h.sign(pk, h.currentTerms(1), h.w.ids[2], h.w.ids[2].part.Address), "forged-"+kind+"-for-other:right-key", "member")
+	}
 	h.command(4, h.joinCmd("group"), "cmd-join:group", "joiner", false)
 	if h.rng.Intn(2) == 0 {
 		_, ab := h.command(0, simpleCmd("abort"), "cmd-abort", "leader", false)
@@ -294,7 +352,7 @@ func Run(name, prop string) func(outDir string, seed int64, tier string) error {
 				specs = append(specs, spec{id: len(specs), kind: kind, seed: rng.Int63()})
 			}
 		}
-		for _, wk := range []string{"w-fresh-epoch", "w-left-panic", "w-key-subst", "w-nonleader-exec", "w-nil-leader", "w-unsigned-key"} {
+		for _, wk := range []string{"w-fresh-epoch", "w-left-panic", "w-key-subst", "w-nonleader-exec", "w-nil-leader", "w-unsigned-key", "w-member-epoch"} {
 			add(wk, 1)
 		}
 		nGen, nFab, nKy, nSleep := 24, 44, 5, 4
